@@ -13,6 +13,10 @@ import (
 
 var verifCustomErr = errors.New("custom failure")
 
+type verifErrT struct{}
+
+func (*verifErrT) Error() string { return "verifErrT" }
+
 // C17: custom functions. A fixed menu of Go functions registered through FunctionTable.Register:
 // bad signatures and existing names are rejected and leave the table unchanged; the wrapper checks the argument
 // count and the dynamic argument types, passes the input collection and the single-item arguments, and returns the
@@ -24,7 +28,7 @@ func VerifHarness_C17_CustomFunctions() {
 	_, exists := t[name]
 	var fn any
 	goodSig := false
-	kind := verifrt.Choose("fn", 6)
+	kind := verifrt.Choose("fn", 10)
 	tag := verifrt.NondetInt32("tag")
 	var seenIn system.Collection
 	var seenArg system.String
@@ -46,6 +50,16 @@ func VerifHarness_C17_CustomFunctions() {
 		fn = func(in system.Collection) system.Collection { return in }
 	case 4: // no parameters at all
 		fn = func() (system.Collection, error) { return nil, nil }
+	case 6: // a nil function value of a good type: it could be registered but never called
+		var nilFn func(system.Collection, system.String) (system.Collection, error)
+		fn = nilFn
+	case 7: // a variadic parameter list is not a fixed one
+		fn = func(in system.Collection, ss ...system.String) (system.Collection, error) { return in, nil }
+	case 8: // the second result is a concrete type that implements error, not the error interface: a nil *verifErrT
+		// returned on success would turn into a non-nil error
+		fn = func(in system.Collection, s system.String) (system.Collection, *verifErrT) { return in, nil }
+	case 9: // the second result is not an error at all
+		fn = func(in system.Collection, s system.String) (system.Collection, bool) { return in, true }
 	default: // not a function
 		fn = 42
 	}
